@@ -14,6 +14,7 @@ Bad == F("Exclusive", {i \in Lines : ~ExclusiveP(Tr[i].st.asked, Fg(i))})
   \cup F("Rerequest", {i \in Steps : ~RerequestP(St(i-1), St(i), Tr[i].act)})
   \cup F("Forgotten", {i \in Steps : ~ForgottenP(St(i-1), St(i), Tr[i].act)})
   \cup F("TrackedOrAsked", {i \in Steps : ~TrackedOrAskedP(St(i-1), St(i), Tr[i].act)})
+  \cup F("GroupUniform", {i \in Lines : Len(Tr[i].st.anom) # 0})      \* bulk runs: every member of a group of 120 txids is treated like the one txid of the specification
   \cup F("NoPanic", {i \in Lines : Tr[i].skip # ""})
 ASSUME JsonSerialize("props_result.json", [lines |-> Len(Tr), bad |-> Bad])
 PSpec == Init /\ [][UNCHANGED vars]_vars
